@@ -1,10 +1,14 @@
 """C03 - a yanny object and its file never diverge over write/append histories.
 Spec: spec/YannyFile.tla (one action per call and outcome); MC: mc/MC_YannyFile (all histories up to MaxOps, negative controls);
 spec -> code: every TLC history replayed on real yanny objects and real files; code -> spec: recorded random histories
-validated event by event by trace/Trace_YannyFile."""
+validated event by event by trace/Trace_YannyFile.
+Every history starts from one of the spec's table sets (YannyFile!TableSetNames: which columns each table has, incl. column names
+shared between the tables as scalar / array / other length / other kind); the harness builds the structures and rows from the
+table set record TLC dumps, and TLC says which cells every row of the object and of a fresh read must hold."""
 import copy
 import os
 import random
+import re
 import shutil
 import warnings
 
@@ -23,65 +27,128 @@ def s_of(n):
     return ('v%d' % n) if n % 2 else ('a b%d' % n)      # even ids need quoting (blank inside)
 
 
-BIG0 = 1237648720693755918        # a 64-bit id that a double cannot hold exactly (every row carries BIG0 + n)
-TA_DT = np.dtype([('n', 'i4'), ('s', 'S8'), ('big', 'i8')])
-TB_DT = np.dtype([('n', 'i4'), ('arr', 'i4', (2,))])
+BIG0 = 1237648720693755918        # a 64-bit id that a double cannot hold exactly (a "big" cell number m is BIG0 + m)
+S_RE = re.compile(r'(?:v|a b|a\tb)(\d+)\Z')
+KIND_DT = {'int': 'i4', 'big': 'i8', 'str': 'S8'}
+KIND_C = {'int': 'int', 'big': 'long', 'str': 'char'}
 
 
-def ta_rows(ns):
-    a = np.zeros((len(ns),), dtype=TA_DT)
-    for i, n in enumerate(ns):
-        a[i] = (n, s_of(n).encode(), BIG0 + n)
-    return a
+def value_of(kind, m):
+    """Concretise: the spec's cell number m of a kind -> the real value."""
+    return m if kind == 'int' else (BIG0 + m if kind == 'big' else s_of(m))
 
 
-def tb_rows(ns):
-    a = np.zeros((len(ns),), dtype=TB_DT)
-    for i, n in enumerate(ns):
-        a['n'][i] = n
-        a['arr'][i] = [n, n + 1]
-    return a
+def abstract_value(x):
+    """Abstract: a real value -> (kind, number); anything that is not the image of value_of is ('other', -1)."""
+    if isinstance(x, (bytes, np.bytes_)):
+        try:
+            x = x.decode()
+        except UnicodeDecodeError:
+            return 'other', -1
+    if isinstance(x, str):
+        m = S_RE.match(x)
+        if m and len(m.group(1)) < 9 and s_of(int(m.group(1))) == x:
+            return 'str', int(m.group(1))
+        return 'other', -1
+    if isinstance(x, (bool, np.bool_)):
+        return 'other', -1
+    if isinstance(x, (int, np.integer)):
+        x = int(x)
+        if 0 <= x - BIG0 < 10 ** 6:
+            return 'big', x - BIG0
+        if abs(x) < 2 ** 30:
+            return 'int', x
+    return 'other', -1
 
 
-UNSIZED_BASE = '''#%%yanny
-# base file with an unsized string column
-K0 0
+def abstract_cell(x):
+    """A real cell -> the spec's [kind, arr, v]."""
+    if isinstance(x, (list, tuple, np.ndarray)):
+        kv = [abstract_value(e) for e in (x.tolist() if isinstance(x, np.ndarray) and x.dtype.kind not in 'SU' else list(x))]
+        kinds = set(k for k, _ in kv)
+        return {'kind': kinds.pop() if len(kinds) == 1 else 'other', 'arr': True, 'v': [v for _, v in kv]}
+    k, v = abstract_value(x)
+    return {'kind': k, 'arr': False, 'v': [v]}
 
-typedef struct {
-    int n;
-    char s[];
-    long big;
-} TA;
 
-typedef struct {
-    int n;
-    int arr[2];
-} TB;
+class TableSetOf:
+    """Concretises one of the spec's table sets (its name and every table's columns, as dumped by TLC)."""
 
-TA 1 v1 %d
-TA 2 "a b2" %d
-'''
+    def __init__(self, rec):
+        self.name = rec['name']
+        self.cols = {t: [dict(c) for c in rec['cols'][t]] for t in TABLES}
+        for t in TABLES:
+            c0 = self.cols[t][0]
+            if (c0['name'], c0['kind'], c0['dim']) != ('n', 'int', 0):
+                raise core.MachineryError('table set %s: %s does not start with the row id' % (self.name, t))
+
+    def dtype(self, t):
+        return np.dtype([(c['name'], KIND_DT[c['kind']]) if c['dim'] == 0 else (c['name'], KIND_DT[c['kind']], (c['dim'],))
+                         for c in self.cols[t]])
+
+    def cell(self, c, n):
+        if c['dim'] == 0:
+            return value_of(c['kind'], n)
+        return [value_of(c['kind'], n + j) for j in range(c['dim'])]
+
+    def rows(self, t, ns):
+        a = np.zeros((len(ns),), dtype=self.dtype(t))
+        for i, n in enumerate(ns):
+            for c in self.cols[t]:
+                a[c['name']][i] = self.cell(c, n)
+        return a
+
+    def lists(self, t, ns):
+        return {c['name']: [self.cell(c, n) for n in ns] for c in self.cols[t]}
+
+    def text(self, base_rows):
+        """The base content as a hand-written file whose scalar string columns are unsized (char s[])."""
+        out = ['#%yanny', '# base file with unsized string columns', 'K0 0', '']
+        for t in TABLES:
+            out.append('typedef struct {')
+            for c in self.cols[t]:
+                dims = ('[%d]' % c['dim'] if c['dim'] else '') + (('[8]' if c['dim'] else '[]') if c['kind'] == 'str' else '')
+                out.append('    %s %s%s;' % (KIND_C[c['kind']], c['name'], dims))
+            out.append('} %s;' % t)
+            out.append('')
+
+        def tok(v):
+            v = str(v)
+            return '"%s"' % v if re.search(r'\s', v) else v
+        for t in TABLES:
+            for n in base_rows[t]:
+                cells = []
+                for c in self.cols[t]:
+                    v = self.cell(c, n)
+                    cells.append('{' + ' '.join(tok(x) for x in v) + '}' if c['dim'] else tok(v))
+                out.append(' '.join([t] + cells))
+        return '\n'.join(out) + '\n'
 
 
 class World:
     """Real files in a scratch directory + one real yanny object."""
 
-    def __init__(self, root, raw, start, rng):
+    def __init__(self, root, raw, start, rng, tset, base):
+        """tset: TableSetOf; base: the spec's initial content of a file-started history ({'rows': {table: ids}, 'pairs': [[k, v]]})."""
         from pydl.pydlutils.yanny import yanny, write_ndarray_to_yanny
         self.root = root
         self.raw = raw
         self.rng = rng
+        self.tset = tset
         shutil.rmtree(root, ignore_errors=True)
         os.makedirs(root)
         if start == NOFILE:
             self.par = yanny()
         else:
+            if [list(p) for p in base['pairs']] != [['K0', 0]]:
+                raise core.MachineryError('the base content of the spec changed: pairs %r' % (base['pairs'],))
             if rng.random() < 0.5:
-                write_ndarray_to_yanny(self.path(start), [ta_rows([1, 2]), tb_rows([])], structnames=['TA', 'TB'], hdr={'K0': 0})
+                write_ndarray_to_yanny(self.path(start), [tset.rows(t, list(base['rows'][t])) for t in TABLES],
+                                       structnames=list(TABLES), hdr={'K0': 0})
             else:
-                # the same base content as a hand-written file whose string column is unsized (char s[])
+                # the same base content as a hand-written file whose scalar string columns are unsized (char s[])
                 with open(self.path(start), 'w') as fh:
-                    fh.write(UNSIZED_BASE % (BIG0 + 1, BIG0 + 2))
+                    fh.write(tset.text({t: list(base['rows'][t]) for t in TABLES}))
             self.par = yanny(self.path(start), raw=raw)
 
     def path(self, f):
@@ -96,29 +163,34 @@ class World:
 
     # ---- projections -----------------------------------------------------------------------
     def project_obj(self, par=None):
+        """rows: every table's row ids in order; cells: every row's cells abstracted one by one (TLC says what they must be)."""
         par = par if par is not None else self.par
         rows = {}
+        cells = {}
         for t in TABLES:
             out = []
+            cs = []
             if t in par.tables():
                 d = par[t]
                 for k in range(par.size(t)):
-                    n = int(d['n'][k])
-                    if t == 'TA':
-                        s = d['s'][k]
-                        s = s.decode() if isinstance(s, bytes) else str(s)
-                        good = s == s_of(n) and int(d['big'][k]) == BIG0 + n
-                    else:
-                        good = [int(x) for x in d['arr'][k]] == [n, n + 1]
-                    out.append(n if good else -1)
+                    row = []
+                    for c in par.columns(t):
+                        try:
+                            row.append(abstract_cell(d[c][k]))
+                        except (IndexError, KeyError, ValueError):     # a column shorter than the table (raw mode): the cell is absent
+                            row.append({'kind': 'absent', 'arr': False, 'v': [-1]})
+                    first = row[0] if row else None
+                    out.append(first['v'][0] if first and first['kind'] == 'int' and not first['arr'] else -1)
+                    cs.append(row)
             rows[t] = out
+            cells[t] = cs
         pairs = []
         for k in par.pairs():
             try:
                 pairs.append([k, int(par[k])])
             except (ValueError, TypeError):
                 pairs.append([k, -1])
-        return {'rows': rows, 'pairs': pairs}
+        return {'rows': rows, 'pairs': pairs, 'cells': cells}
 
     def project_file(self, f):
         p = self.path(f)
@@ -199,12 +271,10 @@ class World:
                     # no rows for this table: either not mentioned at all (above), or mentioned with an empty
                     # selection - an append of nothing is not only spelled {} (statement: "appending nothing only warns")
                     key = t if self.rng.random() < 0.5 else t.lower()
-                    arr = ta_rows(ns) if t == 'TA' else tb_rows(ns)
                     if self.rng.random() < 0.5:
-                        dt[key] = arr
+                        dt[key] = self.tset.rows(t, ns)
                     else:
-                        dt[key] = {c: [x.decode() if isinstance(x, bytes) else (x.tolist() if hasattr(x, 'tolist') else x)
-                                       for x in arr[c]] for c in arr.dtype.names}
+                        dt[key] = self.tset.lists(t, ns)
                 if self.rng.random() < 0.15:
                     dt['symbols'] = {'struct': [], 'enum': []}      # ignored by append() by contract (a whole-object dict)
                 with warnings.catch_warnings(record=True) as w:
@@ -228,7 +298,7 @@ class World:
         ev['out'] = out
         ev['fs'], ev['obj'] = self.snapshot()
         if 'reread' not in ev:
-            ev['reread'] = {'rows': {t: [] for t in TABLES}, 'pairs': []}
+            ev['reread'] = {'rows': {t: [] for t in TABLES}, 'pairs': [], 'cells': {t: [] for t in TABLES}}
         return ev
 
 
@@ -245,29 +315,50 @@ def spec_obj(o):
     return {'rows': {t: list(o['rows'][t]) for t in TABLES}, 'pairs': [[k, v] for k, v in o['pairs']], 'fname': o['fname']}
 
 
+def spec_cells(c):
+    return {t: [[{'kind': x['kind'], 'arr': bool(x['arr']), 'v': list(x['v'])} for x in row] for row in c[t]] for t in TABLES}
+
+
+def spec_fresh(fr):
+    return {'rows': {t: list(fr['rows'][t]) for t in TABLES}, 'pairs': [[k, v] for k, v in fr['pairs']], 'cells': spec_cells(fr['cells'])}
+
+
 def replay_history(ctx, st, root, raw, rng):
-    w = World(root, raw, st['start'], rng)
+    w = World(root, raw, st['start'], rng, TableSetOf(st['tset']), st.get('base'))
     ev = None
     for c in st['hist']:
         ev = w.apply(norm_call(c))
     fs, obj = w.snapshot()
-    want_fs, want_obj = spec_fs(st['fs']), spec_obj(st['obj'])
+    cells = obj.pop('cells')
+    want_fs, want_obj, want_cells = spec_fs(st['fs']), spec_obj(st['obj']), spec_cells(st['cells'])
     problems = []
     if fs != want_fs:
         problems.append('files: spec %r real %r' % (want_fs, fs))
     if obj != want_obj:
         problems.append('object: spec %r real %r' % (want_obj, obj))
+    if cells != want_cells:
+        problems.append('cells of the object (table set %s): spec %r real %r' % (st['tset']['name'], want_cells, cells))
     if ev is not None and ev['out'] != st['last']['out']:
         problems.append('outcome of last call: spec %s real %s %s' % (st['last']['out'], ev['out'], ev.get('exc', '')))
     if ev is not None and not ev['bytes_prefix']:
         problems.append('earlier bytes of a file were not preserved by the last call')
+    if st['fresh']['readable']:
+        # the state says a fresh read of the object's file is possible and what it returns
+        from pydl.pydlutils.yanny import yanny
+        try:
+            got = w.project_obj(yanny(w.par.filename, raw=raw))
+        except Exception as ex:
+            got = 'fresh read raised %s: %s' % (type(ex).__name__, str(ex)[:120])
+        if got != spec_fresh(st['fresh']):
+            problems.append('fresh read of the object\'s file: spec %r real %r' % (spec_fresh(st['fresh']), got))
     return problems
 
 
-def random_trace(root, rng, nops):
+def random_trace(root, rng, nops, inits):
     raw = rng.random() < 0.4
-    start = rng.choice(['f1', 'f2', 'f1', NOFILE])
-    w = World(root, raw, start, rng)
+    start = rng.choice([x for x in ['f1', 'f2', 'f1', NOFILE] if x in inits])
+    tset = inits[start]['tsets'][rng.choice(sorted(inits[start]['tsets']))]
+    w = World(root, raw, start, rng, TableSetOf(tset), inits[start]['base'])
     fs0, obj0 = w.snapshot()
     events = []
     nextid = 10
@@ -306,7 +397,7 @@ def random_trace(root, rng, nops):
                     nextid += m
             nextid += 1
         events.append(w.apply(call))
-    return {'raw': raw, 'init': {'fs': fs0, 'obj': obj0}, 'events': events}
+    return {'raw': raw, 'tset': tset['name'], 'init': {'fs': fs0, 'obj': obj0}, 'events': events}
 
 
 def validate_traces(ctx, traces, label):
@@ -331,9 +422,11 @@ def validate_traces(ctx, traces, label):
 def run(ctx):
     ctx.level = 'model_checking'
     ctx.rule = ('MC_YannyFile states carry the call history that reached them; each history is replayed on a real yanny object and real files and the '
-                'projected object/files/outcome compared with the TLC state; non-trivial = distinct history with at least one successful append or write; '
+                'projected object (rows, pairs, cells of every row under the state\'s table set)/files/outcome and a fresh read of the bound file compared with the TLC state; non-trivial = distinct history with at least one successful append or write; '
                 'recorded random histories are validated event by event by Trace_YannyFile')
-    ctx.assumptions = ['projection: a row is its table and integer id (other cells are a function of the id and are checked when projecting)',
+    ctx.assumptions = ['projection: a file line of a row is its table and integer id; a row of an object is its id and, cell by cell, [kind, array?, numbers] '
+                       '(a real value is abstracted to the kind and number it concretises; TLC says which cells row n of a table holds under the table set)',
+                       'table sets: the five of YannyFile!TableSetNames (columns shared between the tables as scalar/array, array/scalar, arrays of two lengths, two kinds)',
                        'comment/blank lines are collapsed to one head/note token; byte-level prefix preservation is measured on the real bytes and logged per event',
                        'appended keys are fresh (a repeated key cannot be held twice by a dictionary)']
     rng = random.Random(ctx.seed)
@@ -349,32 +442,49 @@ def run(ctx):
     budget = 1500 if ctx.quick else 20000
     pool = []
     n = 0
+    inits = {}          # start -> {'base': initial content, 'tsets': {name: table set record}}  (the spec's initial states)
+    by_tset = {}
     for cfg in cfgs:
         r = ctx.tlc('MC_YannyFile.tla', cfg, dump=True, timeout=2400)
         deep = 3 if cfg != 'MC_YannyFile_thorough.cfg' else 4
         part = []
+        seen_deep = 0
+        early = []
         for st in core.iter_states(r):
             if not st['hist']:
+                d = inits.setdefault(st['start'], {'base': {'rows': st['obj']['rows'], 'pairs': st['obj']['pairs']}, 'tsets': {}})
+                d['tsets'][st['tset']['name']] = st['tset']
                 continue
             if len(st['hist']) >= deep:
-                # reservoir of the deepest histories: keep memory bounded
+                # uniform reservoir of the deepest histories: keep memory bounded
+                seen_deep += 1
                 if len(part) < budget:
                     part.append(st)
                 else:
-                    k = rng.randrange(0, n + len(part) + 1)
+                    k = rng.randrange(0, seen_deep)
                     if k < budget:
                         part[k] = st
                 continue
-            n += do_replay(ctx, st, root, rng)
+            if st['start'] not in inits:
+                early.append(st)
+                continue
+            n += do_replay(ctx, st, root, rng, inits, by_tset)
+        for st in early:
+            n += do_replay(ctx, st, root, rng, inits, by_tset)
         pool.extend(part)
     rng.shuffle(pool)
     for st in pool[:budget]:
-        n += do_replay(ctx, st, root, rng)
+        n += do_replay(ctx, st, root, rng, inits, by_tset)
+    ctx.cov['parts']['histories_replayed_by_table_set'] = dict(sorted(by_tset.items()))
+    tsets_seen = set(k for d in inits.values() for k in d['tsets'])
+    if set(by_tset) != tsets_seen or any(v['both_tables_in_one_call'] == 0 for v in by_tset.values()):
+        raise core.MachineryError('table-set dimension not exercised (no replayed call emitted rows of both tables): %r' % (by_tset,))
     ctx.cov['parts']['histories_replayed'] = n
     ctx.cov['parts']['deep_histories_available'] = len(pool)
     # ---- code -> spec ---------------------------------------------------------------------------
     ntr = 150 if ctx.quick else 2000
-    traces = [random_trace(root, rng, rng.randint(4, 12)) for _ in range(ntr)]
+    traces = [random_trace(root, rng, rng.randint(4, 12), inits) for _ in range(ntr)]
+    ctx.cov['parts']['recorded_histories_by_table_set'] = {k: sum(1 for t in traces if t['tset'] == k) for k in sorted(tsets_seen)}
     bad, violated = validate_traces(ctx, traces, 'Trace_YannyFile %d recorded histories' % ntr)
     ctx.evaluated(sum(len(t['events']) for t in traces), 'recorded_events')
     ctx.validated(len(traces))
@@ -408,26 +518,75 @@ def run(ctx):
         if 0 not in b2 or (1 not in b2 and len(t2['events']) > k):
             raise core.MachineryError('binding self-test failed: corrupted trace accepted (%r)' % (b2,))
         ctx.cov['parts']['binding_selftest'] = 'corrupted field rejected at event %d; dropped event rejected: %s' % (b2.get(0, -1), 1 in b2)
+    # binding self-test of the cells: one observed cell falsified (array-ness, kind, one number) in the object after a
+    # successful append of rows, and in a fresh read
+    falsified = []
+    for t in [t for i, t in enumerate(traces) if i not in bad]:
+        for k, e in enumerate(t['events']):
+            tn = [x for x in TABLES if e['obj']['cells'][x]]
+            if e['op'] == 'append' and e['out'] == 'ok' and tn and len(falsified) < 12:
+                for how in ('arr', 'kind', 'v'):
+                    c = copy.deepcopy(t)
+                    cell = c['events'][k]['obj']['cells'][tn[-1]][-1][-1]
+                    if how == 'arr':
+                        cell['arr'] = not cell['arr']
+                    elif how == 'kind':
+                        cell['kind'] = 'int' if cell['kind'] != 'int' else 'big'
+                    else:
+                        cell['v'][-1] += 1
+                    falsified.append(c)
+            if e['op'] == 'reread' and e['out'] == 'ok' and tn and sum(1 for c in falsified if c.get('_rr')) < 3:
+                c = copy.deepcopy(t)
+                cell = c['events'][k]['reread']['cells'][tn[0]][0][-1]
+                cell['v'][0] += 1
+                c['_rr'] = 1
+                falsified.append(c)
+    if not falsified and not bad:
+        raise core.MachineryError('binding self-test of the cells: no accepted history with rows to falsify')
+    if falsified:
+        b3, _ = validate_traces(ctx, falsified, 'binding self-test (falsified cells)')
+        missed = [i for i in range(len(falsified)) if i not in b3]
+        ctx.cov['parts']['selftest_cells'] = {'corrupted_records': len(falsified), 'rejected': len(b3)}
+        if missed:
+            raise core.MachineryError('binding self-test failed: %d of %d histories with a falsified cell were accepted, e.g. table set %s'
+                                      % (len(missed), len(falsified), falsified[missed[0]]['tset']))
     shutil.rmtree(root, ignore_errors=True)
     ctx.exhaustive = False
 
 
-def do_replay(ctx, st, root, rng):
+def do_replay(ctx, st, root, rng, inits, by_tset):
     raw = rng.random() < 0.4
+    st['base'] = inits[st['start']]['base']
     problems = replay_history(ctx, st, root, raw, rng)
     ctx.evaluated(len(st['hist']), 'replayed_calls')
     ctx.validated()
     hist = [norm_call(c) for c in st['hist']]
+    acc = by_tset.setdefault(st['tset']['name'], {'histories': 0, 'both_tables_in_one_call': 0})
+    acc['histories'] += 1
+    # a successful call that emits rows of BOTH tables: an append giving both, or a write of an object holding both
+    if any(all(c['rows'][t] for t in TABLES) for c in hist) or (st['last']['op'] == 'write' and st['last']['out'] == 'ok'
+                                                                 and all(st['obj']['rows'][t] for t in TABLES)):
+        acc['both_tables_in_one_call'] += 1
     if st['last']['out'] == 'ok' and st['last']['op'] in ('append', 'write'):
-        ctx.nontriv(repr((st['start'], hist)))
+        ctx.nontriv(repr((st['start'], st['tset']['name'], hist)))
     if len(hist) == 3:
-        ctx.sample({'start': st['start'], 'history': hist, 'final_object': spec_obj(st['obj'])}, limit=3)
+        ctx.sample({'start': st['start'], 'table_set': st['tset']['name'], 'history': hist, 'final_object': spec_obj(st['obj'])}, limit=3)
     if problems:
-        ctx.violation({'what': 'history %s from start %s (raw=%s): %s' % (
-            [(c['op'], c['f'], c['pairs'], c['rows']) for c in hist], st['start'], raw, problems[0][:300]),
-            'start': st['start'], 'raw': raw, 'hist': hist, 'problems': problems,
-            'spec_state': {'fs': spec_fs(st['fs']), 'obj': spec_obj(st['obj']), 'last': dict(st['last'])}})
+        ctx.violation({'what': 'history %s from start %s, table set %s (raw=%s): %s' % (
+            [(c['op'], c['f'], c['pairs'], c['rows']) for c in hist], st['start'], st['tset']['name'], raw, problems[0][:300]),
+            'start': st['start'], 'raw': raw, 'hist': hist, 'problems': problems, 'tset': core_plain(st['tset']), 'base': core_plain(st['base']),
+            'spec_state': {'fs': spec_fs(st['fs']), 'obj': spec_obj(st['obj']), 'last': dict(st['last']),
+                           'cells': spec_cells(st['cells']), 'fresh': dict(spec_fresh(st['fresh']), readable=bool(st['fresh']['readable']))}})
     return 1
+
+
+def core_plain(x):
+    """TLC values as parsed from a dump (dict / tuple) -> plain JSON-able data."""
+    if isinstance(x, dict):
+        return {k: core_plain(v) for k, v in x.items()}
+    if isinstance(x, (tuple, list)):
+        return [core_plain(v) for v in x]
+    return x
 
 
 def replay(ctx, case):
@@ -438,7 +597,8 @@ def replay(ctx, case):
     root = os.path.join(ctx.scratch, 'world')
     if 'hist' in case:
         st = {'start': case['start'], 'hist': case['hist'], 'fs': case['spec_state']['fs'], 'obj': case['spec_state']['obj'],
-              'last': case['spec_state']['last']}
+              'last': case['spec_state']['last'], 'tset': case['tset'], 'base': case['base'],
+              'cells': case['spec_state']['cells'], 'fresh': case['spec_state']['fresh']}
         problems = replay_history(ctx, st, root, case.get('raw', False), rng)
         print('history:', case['hist'], '\nproblems:', problems or 'none')
         ctx.evaluated(1)
